@@ -388,7 +388,12 @@ class Engine:
             return True
         self.solver.push()
         self.solver.add(z3.Not(c))
+        t_obl = time.time()
         r = self._check(self.OBL_TIMEOUT_MS)
+        t_obl = time.time() - t_obl
+        if t_obl > self.stats.get("max_obl_s", 0.0):
+            self.stats["max_obl_s"] = t_obl
+            self.stats["max_obl_name"] = name
         model_inputs = None
         status = "proved"
         backend = "z3"
